@@ -7,6 +7,8 @@ import (
 	"strconv"
 	"strings"
 	"unicode/utf16"
+
+	"golang.org/x/text/unicode/norm"
 )
 
 // String
@@ -516,6 +518,8 @@ func builtinStringLocaleCompare(call FunctionCall) Value {
 	checkObjectCoercible(call.runtime, call.This)
 	this := call.This.string() //nolint:ifshort
 	that := call.Argument(0).string()
+	// Canonically equivalent strings compare equal (15.5.4.9).
+	this, that = norm.NFD.String(this), norm.NFD.String(that)
 	if this < that {
 		return intValue(-1)
 	} else if this == that {
